@@ -239,8 +239,8 @@ fn run_one(rec: &Value, poison: bool, with_internals: bool) -> Value {
             out["out"] = json!({"kind": "panic", "bits": []});
         },
     }
-    // allocations of shape 4 (VecDeque) and of a panic payload are the harness's own
-    out["allocs"] = Value::from(if shape == 4 || res.is_err() { 0 } else { after - before });
+    // allocations of shapes 4, 7, 8, 9 (they build their own buffers) and of a panic payload are the harness's own
+    out["allocs"] = Value::from(if shape == 4 || shape >= 7 || res.is_err() { 0 } else { after - before });
     out["cfg"] = Value::from(cfg_name());
     if with_internals {
         if fmt == "f32" {
